@@ -20,6 +20,19 @@
 #include <urcu/urcu-bp.h>
 #endif
 #include <urcu/rculfhash.h>
+#ifdef TWO_FLAVORS
+/* a second flavor (bp) linked into the same process next to the build's own flavor (memb); used through its prefixed API */
+extern const struct rcu_flavor_struct urcu_bp_flavor;
+void urcu_bp_read_lock(void);
+void urcu_bp_read_unlock(void);
+void urcu_bp_synchronize_rcu(void);
+void urcu_bp_before_fork(void);
+void urcu_bp_after_fork_parent(void);
+void urcu_bp_after_fork_child(void);
+void urcu_bp_call_rcu_before_fork(void);
+void urcu_bp_call_rcu_after_fork_parent(void);
+void urcu_bp_call_rcu_after_fork_child(void);
+#endif
 
 const char *vrt_property_id = "C16";
 
@@ -375,7 +388,68 @@ static void run_fork2(void)
 	rcu_unregister_thread();
 }
 
+#ifdef TWO_FLAVORS
+/* hash tables (and with them the shared resize worker's fork hooks) exist under TWO flavors; the application follows the documented
+ * protocol for both: every flavor's call_rcu fork handlers are called around the one fork() */
+static void run_fork_two_flavors(void)
+{
+	struct cds_lfht *t1, *t2;
+	static struct cds_lfht_node n1[4], n2[4];
+	pid_t pid;
+	int i;
+	const char *who;
+
+	rcu_register_thread();
+	urcu_bp_read_lock();
+	urcu_bp_read_unlock();
+	t1 = cds_lfht_new_flavor(1, 1, 8, CDS_LFHT_AUTO_RESIZE, &urcu_memb_flavor, NULL);
+	t2 = cds_lfht_new_flavor(1, 1, 8, CDS_LFHT_AUTO_RESIZE, &urcu_bp_flavor, NULL);
+	VRT_CHECK(t1 && t2, "cds_lfht_new_flavor failed");
+	urcu_memb_call_rcu_before_fork();
+	urcu_bp_call_rcu_before_fork();
+	urcu_bp_before_fork();
+	pid = fork();
+	if (pid == 0) {
+		urcu_bp_after_fork_child();
+		urcu_bp_call_rcu_after_fork_child();
+		urcu_memb_call_rcu_after_fork_child();
+	} else {
+		urcu_bp_after_fork_parent();
+		urcu_bp_call_rcu_after_fork_parent();
+		urcu_memb_call_rcu_after_fork_parent();
+	}
+	who = pid == 0 ? "child" : "parent";
+	for (i = 0; i < 4; i++) {	/* hashes 1,3,5,7: the fourth queues a lazy grow on the shared worker */
+		cds_lfht_node_init(&n1[i]);
+		cds_lfht_node_init(&n2[i]);
+		urcu_memb_read_lock();
+		cds_lfht_add(t1, (unsigned long)(2 * i + 1), &n1[i]);
+		urcu_memb_read_unlock();
+		urcu_bp_read_lock();
+		cds_lfht_add(t2, (unsigned long)(2 * i + 1), &n2[i]);
+		urcu_bp_read_unlock();
+	}
+	urcu_memb_synchronize_rcu();
+	urcu_bp_synchronize_rcu();
+	urcu_memb_read_lock();
+	for (i = 0; i < 4; i++)
+		VRT_CHECK(cds_lfht_del(t1, &n1[i]) == 0, "%s: del (memb table) failed", who);
+	urcu_memb_read_unlock();
+	urcu_bp_read_lock();
+	for (i = 0; i < 4; i++)
+		VRT_CHECK(cds_lfht_del(t2, &n2[i]) == 0, "%s: del (bp table) failed", who);
+	urcu_bp_read_unlock();
+	VRT_CHECK(cds_lfht_destroy(t1, NULL) == 0 && cds_lfht_destroy(t2, NULL) == 0, "%s: destroy failed", who);
+	while (!vrt_is_freed(t1) || !vrt_is_freed(t2))
+		vrt_yield();
+	rcu_unregister_thread();
+}
+#endif
+
 struct vrt_scenario vrt_scenarios[] = {
+#ifdef TWO_FLAVORS
+	{ "fork_two_flavors", run_fork_two_flavors, "tables under two flavors; both flavors' call_rcu fork handlers around one fork" },
+#endif
 	{ "fork2", run_fork2, "two consecutive bracketed forks; params fork_follow, fork_follow2, pre_lfht, racer" },
 	{ "fork", run_fork, "fork with the documented handlers; params fork_follow, helpers, readers, hold, lfht, pre_lfht, ncb" },
 	{ NULL, NULL, NULL }
